@@ -106,7 +106,10 @@ type world struct {
 	opDone  func(op *clientOp)
 }
 
-func newWorld(engine string, cacheSize int) *world {
+func newWorld(engine string, cacheSize int) *world { return newWorldCompat(engine, cacheSize, false) }
+
+// newWorldCompat: compat enables the etcd-compatibility switch of the backend (Count is served).
+func newWorldCompat(engine string, cacheSize int, compat bool) *world {
 	kv, release, err := hx.AcquireEngine(engine)
 	if err != nil {
 		panic(err)
@@ -122,7 +125,7 @@ func newWorld(engine string, cacheSize int) *world {
 	vatomic.AddHook = func(_ unsafe.Pointer, v uint64) {
 		w.adds = append(w.adds, notifRec{vrt.CurName(), vrt.Steps(), v, true})
 	}
-	w.b = backend.NewBackend(w.kv, backend.Config{Prefix: "/r", Identity: "n1", WatchCacheSize: cacheSize}, hx.NopMetrics{})
+	w.b = backend.NewBackend(w.kv, backend.Config{Prefix: "/r", Identity: "n1", WatchCacheSize: cacheSize, EnableEtcdCompatibility: compat}, hx.NopMetrics{})
 	w.b.SetCurrentRevision(base)
 	vrt.Quiesce()
 	return w
@@ -140,6 +143,7 @@ func (w *world) do(op *clientOp) {
 	op.Thread = vrt.CurName()
 	w.ops = append(w.ops, op)
 	key, val := []byte(op.Key), []byte(op.Val)
+	vrt.Mark() // call / return / commit order is observed by the oracles
 	op.Call = vrt.Steps()
 	switch {
 	case op.Kind == rCreate:
@@ -162,6 +166,7 @@ func (w *world) do(op *clientOp) {
 		}
 	}
 	op.Ret = vrt.Steps()
+	vrt.Mark()
 	op.done = true
 }
 
